@@ -30,7 +30,10 @@ def selftest(ctx, trace, cfg):
 
     def inflate(ls):
         # a recorded peak is blown up beyond the bound
-        i = next(i for i, l in enumerate(ls) if '"op":"parse"' in l and '"o":"err"' in l and '"decomp":false' in l)
+        # victim: an unmodified fixture that parsed - its header claims fit the input, so no listed allocation
+        # deviation can excuse the inflated figure (a mutant with an oversized count field could be excused)
+        i = next(i for i, l in enumerate(ls) if '"op":"parse"' in l and '"o":"ok"' in l and '"src":"fixture"' in l and '"decomp":false' in l
+                 and json.loads(l)["fmt"] in ("root", "tvfs", "patch_archive", "bpsv", "build_config", "keyring_config", "espec", "archive_index", "cdn_config", "mime", "lru", "residency", "update_section", "build_info"))
         e = json.loads(ls[i])
         e["peak_kib"] = e["len"] // 4 + 16384 + 1
         ls[i] = json.dumps(e, separators=(",", ":"))
@@ -48,7 +51,8 @@ def selftest(ctx, trace, cfg):
            "inflate_peak_flagged": pc.selftest_lines(ctx, MODULE_T, cfg, lines, inflate, "b"),
            "drop_one_event_flagged": pc.selftest_lines(ctx, MODULE_T, cfg, lines, drop, "c")}
     ctx.cov["binding_selftest"] = res
-    if not all(res.values()):
+    # a run that already reports violations keeps its verdict (exit 1); the self-test result is in the evidence
+    if not all(res.values()) and not ctx.violations:
         raise lib.ToolError(f"binding self-test failed: {res}")
 
 
@@ -64,7 +68,12 @@ def run(ctx):
     v, cfg = pc.judge(ctx, MODULE_T, run_.trace, kd, f"fixtures + model vectors + mutations seed={ctx.seed}", stride=run_.jobs)
     # one report per (format, kind of failure)
     pc.classify(ctx, v, run_, "drv_parse", what_of, group_of=lambda e: (e.get("fmt"), e.get("o") if e.get("o") not in ("ok", "err") else "alloc", e.get("mc", "")))
-    selftest(ctx, run_.trace, cfg)
+    try:
+        selftest(ctx, run_.trace, cfg)
+    except StopIteration:
+        ctx.cov["binding_selftest"] = {"no_victim_event_in_sample": True}
+        if not ctx.violations:
+            raise lib.ToolError("binding self-test found no event to corrupt in the sample")
     wants = ('"src":"model"', '"src":"mut"', '"src":"fixture"')
     for want, e in zip(wants, pc.first_matching(run_.trace, [lambda l, w=w: w in l and '"op":"parse"' in l for w in wants])):
         if e:
